@@ -295,6 +295,38 @@ def gen_jitlogic(src_dir):
     if em.binds or ty != 'USZ':
         raise Unsupported("resolve_jumps: index expression")
     out.append("Definition gen_jit_resolve_index (target_pc : Z) : Z :=\n  %s.\n\n" % t)
+    # resolve_jumps: the 32-bit displacement written at jump.offset_loc
+    lets = {}
+
+    def walk3(e):
+        if isinstance(e, tuple) and e and e[0] == 'let' and e[1][0] == 'ppath' and e[1][1] in ('offset_loc', 'rel'):
+            lets[e[1][1]] = e[3]
+        if isinstance(e, (tuple, list)):
+            for x in e:
+                walk3(x)
+    walk3(body)
+    if sorted(lets) != ['offset_loc', 'rel']:
+        raise Unsupported("resolve_jumps: offset_loc / rel not found")
+    rel = lets['rel']
+    while rel[0] in ('as', 'ref', 'paren'):
+        rel = rel[1]
+    em = Emitter(env, {'jump.offset_loc': ('jump_offset_loc', 'USZ'), 'target_loc': ('target_loc', 'USZ')})
+    orig_e = em.expr
+
+    def expr_sz(e, expect=None):
+        if e[0] == 'call' and show(e[1]).startswith('core::mem::size_of::<i32>'):
+            return '4', 'USZ'
+        return orig_e(e, expect)
+    em.expr = expr_sz
+    t1, ty1 = em.expr(lets['offset_loc'])
+    b1 = em.take_binds()
+    em.locals['offset_loc'] = ('offset_loc', ty1)
+    t2, ty2 = em.expr(rel)
+    b2 = em.take_binds()
+    if ty1 != 'I32' or ty2 != 'I32':
+        raise Unsupported("resolve_jumps: displacement types %s %s" % (ty1, ty2))
+    out.append("Definition gen_jit_rel32 (jump_offset_loc target_loc : Z) : res Z :=\n  %s.\n\n"
+               % Emitter.wrap_binds(b1, '(let offset_loc := %s in %s)' % (t1, Emitter.wrap_binds(b2, 'Ok %s' % t2))))
     # REGISTER_MAP
     i = 0
     regs = None
